@@ -10,6 +10,7 @@
 package main
 
 import (
+	"time"
 	"bytes"
 	"encoding/json"
 	"fmt"
@@ -289,6 +290,9 @@ func main() {
 	r := vx.Start("C23", "model_checking")
 	r.QuietStderr()
 	setup()
+	if !r.Quick() {
+		r.SetBudget(45 * time.Minute) // pools of five over nine transactions: about 15-25 minutes on 16 quiet cores
+	}
 	maxPool := r.Pick(4, 5)
 	maxAged := r.Pick(1, 2)
 	thinMasks := r.Quick()
